@@ -94,10 +94,7 @@ def reinterpret_expr(expr, symbols_from, symbols_to):
             elif op == OP_CONSTPOW:
                 work[o[0]] = work[i[0]]**work[i[1]]
             else:
-                print('Unknown operation: ', op)
-
-                print('------')
-                print('Evaluated ' + str(f))
+                raise Exception("Operation %s of %s cannot be re-interpreted (only polynomial expressions are supported)." % (str(op), str(f.instruction_MX(k))))
 
     return output_val[0]
 
